@@ -24,10 +24,12 @@ class Collector(object):
         self.by_key = {}      # vkey -> dict(first witness, count)
         self.order = []
 
-    def add(self, vkey, witness, detail=None):
+    def add(self, vkey, witness, detail=None, task=None):
+        """task: the (picklable) argument of the worker task that produced the violation; --replay falls back to re-running
+        that whole task when the single case does not reproduce on its own (state carried between calls)"""
         e = self.by_key.get(vkey)
         if e is None:
-            self.by_key[vkey] = {'count': 1, 'witness': witness, 'detail': detail}
+            self.by_key[vkey] = {'count': 1, 'witness': witness, 'detail': detail, 'task': task}
             self.order.append(vkey)
         else:
             e['count'] += 1
@@ -56,14 +58,86 @@ class Collector(object):
             os.makedirs(d, exist_ok=True)
             path = os.path.join(d, findings.key_hash(vkey) + '.json')
             with open(path, 'w') as f:
-                json.dump({'property': self.prop, 'kind': replay_kind, 'key': vkey,
-                           'witness': e['witness'], 'detail': e['detail']}, f, indent=1, default=_js)
+                doc = {'property': self.prop, 'kind': replay_kind, 'key': vkey, 'witness': e['witness'], 'detail': e['detail']}
+                if e.get('task') is not None:
+                    packed = pack(e['task'])
+                    if len(packed) <= 400000:
+                        doc['task'] = packed
+                json.dump(doc, f, indent=1, default=_js)
             print('VIOLATION property=%s replay=%s' % (self.prop, path))
             print('  key: %s' % vkey)
             if e['detail'] is not None:
                 print('  detail: %s' % (json.dumps(e['detail'], default=_js)[:600],))
             summary.append({'key': vkey, 'status': 'new', 'count': e['count'], 'replay': path})
         return n_new, n_known, summary
+
+
+def pack(obj):
+    import base64, pickle, zlib
+    return base64.b64encode(zlib.compress(pickle.dumps(obj, 2))).decode()
+
+
+def unpack(s):
+    import base64, pickle, zlib
+    return pickle.loads(zlib.decompress(base64.b64decode(s)))
+
+
+def fresh(fn, *args):
+    """fn(*args) in a forked child: whatever state the code under test leaves behind (class attributes, module globals,
+    caches) cannot reach the next run, so two runs of one replay are comparable"""
+    import pickle
+    r, w = os.pipe()
+    pid = os.fork()
+    if pid == 0:
+        code = 0
+        try:
+            os.close(r)
+            try:
+                data = pickle.dumps(('ok', fn(*args)), 2)
+            except BaseException as e:     # noqa
+                import traceback
+                data = pickle.dumps(('diverged' if type(e).__name__ == 'ReplayDivergence' else 'err',
+                                     str(e) if type(e).__name__ == 'ReplayDivergence' else traceback.format_exc()), 2)
+            with os.fdopen(w, 'wb') as f:
+                f.write(data)
+        except BaseException:    # noqa
+            code = 1
+        os._exit(code)
+    os.close(w)
+    with os.fdopen(r, 'rb') as f:
+        data = f.read()
+    os.waitpid(pid, 0)
+    from . import explore
+    if not data:
+        raise explore.HarnessError('replay child died without a result')
+    st, val = pickle.loads(data)
+    if st == 'diverged':
+        from . import world
+        raise world.ReplayDivergence(val)
+    if st != 'ok':
+        raise explore.HarnessError('replay child raised:\n' + val)
+    return val
+
+
+def twice(fn, *args):
+    return fresh(fn, *args), fresh(fn, *args)
+
+
+def replay_in_task(d, run_task, keys_of=lambda r: [k for k, _ in r[1]]):
+    """second stage of --replay: the single case did not reproduce; re-run the whole worker task it came from (twice) and
+    look for the same violation key.  Returns 1 / 0 / 2 like replay()."""
+    if 'task' not in d:
+        return 0
+    t = unpack(d['task'])
+    a, b = [keys_of(r) for r in twice(run_task, t)]
+    if a != b:
+        print('HARNESS-ERROR: replay of the task is not deterministic')
+        return 2
+    if d['key'] in a:
+        print('the case alone does not reproduce the violation; it does in the context of its worker task (the calls before it '
+              'leave state behind): task of %d violation keys' % len(set(a)))
+        return 1
+    return 0
 
 
 def _js(o):
